@@ -118,6 +118,19 @@ CLAIMED = {
          "public builder; tables beyond 4 KiB are judged on their loca only.",
     technique="TLA+ glyf/loca decoder + canonical length; TLC-enumerated glyph families replayed on the builder; trace validation of emitted bytes",
     design="4/C09"),
+ "C12": dict(
+    category="model_checking",
+    text="HintInstance.tla models the in-place reconfiguration of the hinting instance (provenance of every retained "
+         "buffer; setup / fpgm / prep steps; failure leaves a disabled instance) and TLC checks history independence "
+         "(Fresh), FailedIsNone and DrawPure over all short histories of a 12-configuration catalogue; each history is "
+         "replayed on one reused HintingInstance and every glyph drawn through it is compared with a fresh instance - "
+         "two synthetic fonts make storage, CVT, twilight, FDEF and IDEF state visible in point coordinates; draws "
+         "with caller memory at all misalignments, all-zero locations, pedantic mode and 8 threads sharing an instance "
+         "are compared with the plain draw; every path is checked for the (Move Seg* Close)* grammar.",
+    note="Trusted: TLC, the fresh-instance oracle (same build). Histories <= 3; the auto-hinter's lazily filled "
+         "metrics cache is exercised by the thread variant but not yet modelled as its own TLA+ module.",
+    technique="TLA+ life-cycle model checked by TLC; TLC-generated reconfigure histories replayed on a reused instance; trace validation of draw equality",
+    design="4/C12"),
 }
 
 NOT_APPLICABLE = {
